@@ -337,16 +337,27 @@ def sortParts (ps : List Part) : List Part := ps.foldr insertPart []
 /-- `htlcs.iter().map(|h| h.cltv_expiry).min()` -/
 def minCltv (ps : List Part) : Option Nat := (ps.map (·.cltv)).min?
 
-/-- mirrors `handle_claimable_htlc` + `check_incoming_mpp_part` for one new part -/
+/-- `RecipientOnionFields` (+ the payment purpose) of a part / of the entry as the TRANSLATED `check_merge`,
+    purpose test and unknown-even-TLV test read them.  The model's `tag` stands for the tuple (payment_secret,
+    payment_metadata, purpose, values of the even custom TLVs), so it fills every one of those slots; `ev` says
+    whether there is an even custom TLV at all (type 65536 in the harness).  Odd custom TLVs never decide anything
+    (check_merge intersects them) and are not represented. -/
+def onionOf (total tag : Nat) (ev : Bool) : MppGen.OnionG :=
+  { payment_secret := tag, payment_metadata := tag, total_mpp_amount_msat := total,
+    custom_tlvs := if ev then [(65536, tag)] else [] }
+
+/-- mirrors `handle_claimable_htlc` + `check_incoming_mpp_part` for one new part; the gates in front of the amount
+    decisions are the TRANSLATED ones (`MppGen.pendingClaimRefuses`, `purposeMismatch`, `checkMergeErr`) -/
 def stepPart (s : Mpp) (p : Part) : Mpp × List Out :=
-  if s.claiming then (s, [.failPart p.id]) else
+  if MppGen.pendingClaimRefuses s.claiming then (s, [.failPart p.id]) else
   -- `entry(payment_hash).or_insert_with(..)`: the first part defines the payment's onion fields
   let first := s.parts.isEmpty
   let total := if first then p.total else s.total
   let tag := if first then p.tag else s.tag
   let ev := if first then p.evenTlv else s.evenTlv
   -- purpose comparison + RecipientOnionFields::check_merge
-  if p.tag ≠ tag ∨ p.total ≠ total ∨ p.evenTlv ≠ ev then (s, [.failPart p.id]) else
+  if MppGen.purposeMismatch p.tag tag || MppGen.checkMergeErr (onionOf total tag ev) (onionOf p.total p.tag p.evenTlv) then
+    (s, [.failPart p.id]) else
   let t := accIntended p.intended s.parts
   if t ≥ MAX_VALUE_MSAT then (s, [.failPart p.id])
   else if t - p.intended ≥ total then (s, [.failPart p.id])      -- "payment is already claimable"
@@ -354,7 +365,8 @@ def stepPart (s : Mpp) (p : Part) : Mpp × List Out :=
     let all := s.parts ++ [p]
     let amount := sumValue all
     let all' := sortParts (all.map fun q => { q with totalRecv := some amount })
-    let deadline := claimDeadline ((minCltv all').getD p.cltv)
+    -- `claim_deadline`: the TRANSLATED expression of handle_claimable_htlc over the (sorted) completed set
+    let deadline := MppGen.eventClaimDeadline (all'.map Part.g) p.cltv
     ({ s with parts := all', total := total, tag := tag, evenTlv := ev }, [.claimable amount (sumSkim all) deadline])
   else
     ({ s with parts := s.parts ++ [p], total := total, tag := tag, evenTlv := ev }, [])
@@ -388,7 +400,8 @@ def claimLoop : List Part → Option Nat → Nat → Option Nat × Nat × Bool
 def stepClaim (s : Mpp) (known : Bool) : Mpp × List Out :=
   if s.parts.isEmpty then (s, []) else       -- `Err(Vec::new())`: nothing claimable under this hash
   let gone := { s with parts := [] }         -- `claimable_payments.remove(&payment_hash)`
-  if !known && s.evenTlv then (gone, s.parts.map (Out.failPart ·.id)) else
+  -- `begin_claiming_payment`: unknown even TLVs (translated test over the entry's merged onion fields)
+  if MppGen.claimRefusesUnknownEven known (onionOf s.total s.tag s.evenTlv).custom_tlvs then (gone, s.parts.map (Out.failPart ·.id)) else
   let (exp, amt, valid) := claimLoop s.parts none 0
   let mark : List Out := if valid then [] else [.inconsistent]
   match exp with
@@ -410,6 +423,18 @@ def step (s : Mpp) : Op → Mpp × List Out
   | .claim known => stepClaim s known
   | .claimDone => ({ s with claiming := false }, [])
   | .failBack => stepFailBack s
+
+/-- the `LocalHTLCFailureReason` with which the HTLCs failed by `step s op` (its `failPart` outputs) are failed
+    back: one fail-back site per op, each constant TRANSLATED from the site's Rust text (`MppGen.reason*`) -/
+def stepWhy (s : Mpp) : Op → FailReason
+  | .part .. => MppGen.reasonPartRefused
+  | .tick => MppGen.reasonMppTimeout
+  | .block _ => MppGen.reasonOnchainTimeout
+  | .claim known =>
+    if MppGen.claimRefusesUnknownEven known (onionOf s.total s.tag s.evenTlv).custom_tlvs then MppGen.reasonUnknownEvenTlv
+    else MppGen.reasonClaimInvalidMpp
+  | .claimDone => MppGen.reasonFailBack
+  | .failBack => MppGen.reasonFailBack
 
 /-- run a list of ops, collecting the outputs of every step -/
 def run (s : Mpp) : List Op → Mpp × List Out
